@@ -34,7 +34,7 @@ var c13Space = mkSpace("logout", []fieldDim{
 	{"SLO", []string{"", "none", "two", "redirect-first", "three", "query-url", "special-url"}},
 	{"Dest", []string{"", "absent", "foreign"}},
 	{"Prefix", []string{"", "default", "odd"}},
-	{"Lookup", []string{"", "error"}},
+	{"Lookup", []string{"", "error", "error-ctx-deadline", "error-ctx-canceled"}},
 })
 
 func loFromVec(s *devx.Space, vec []int) loP {
@@ -157,11 +157,23 @@ func c13RunSeq(seq []int) []c13Verdict {
 
 // c13RegChange runs logout(A) ; unregister(A) ; logout(A) on one provider and judges the last reply as a request of an
 // unregistered issuer.
-func c13RegChange(p loP) c13Verdict {
+func c13RegChange(p loP) c13Verdict { return c13RegChangeMode(p, "unregistered") }
+
+var c13RegModes = []string{"unregistered", "lookup-fails:" + world.FaultError, "lookup-fails:" + world.FaultCtxDeadline, "lookup-fails:" + world.FaultCtxCanceled,
+	"unregistered+lookup-fails:" + world.FaultError, "unregistered+lookup-fails:" + world.FaultCtxDeadline, "unregistered+lookup-fails:" + world.FaultCtxCanceled}
+
+// c13RegChangeMode: logout(p) ; [SP A unregistered] ; [the service-provider lookup of the next request fails] ; logout(p).
+// In every mode the issuer of the second request is not confirmed as a registered service provider.
+func c13RegChangeMode(p loP, mode string) c13Verdict {
 	w, req, _ := loBuild(p)
 	w.Do(req)
 	_, req2, t := loBuild(p)
-	w.Store.UnregisterSP(msg.SPA().EntityID)
+	if strings.HasPrefix(mode, "unregistered") {
+		w.Store.UnregisterSP(msg.SPA().EntityID)
+	}
+	if i := strings.Index(mode, "lookup-fails:"); i >= 0 {
+		w.Store.FaultNext("GetEntityByID", 1, mode[i+len("lookup-fails:"):])
+	}
 	t.IssuerRegistered = false
 	t.ExpectTarget = ""
 	t.Conformant = false
@@ -271,6 +283,7 @@ type c13Replay struct {
 	P        *loP  `json:"p,omitempty"`
 	Seq      []int `json:"seq,omitempty"`
 	RegChange bool `json:"registration_removed_between,omitempty"`
+	RegMode   string `json:"registration_change_mode,omitempty"`
 	Schedule []int `json:"schedule,omitempty"`
 }
 
@@ -288,7 +301,7 @@ func runC13(ctx Ctx) int {
 		}
 	}
 	run := ev.NewRun("C13")
-	run.Rule = "every assignment of 15 logout-request / SP-metadata dimensions with at most k deviations from the conformant default (k<=3 quick, k<=4 thorough), plus every event history of length 2 (quick) / <=3 (thorough) over a 16-request alphabet on ONE provider (each reply judged by the same oracle; sync.Pool is replaced by a deterministic LIFO pool through the overlay); one execution = fresh provider + one real logout request with the clock pinned; the reply is decoded with x/net/html + xt; plus logout ; service provider unregistered ; same logout for every k<=1 shape, plus logout(A) || logout(A) || unregister(A) under the controlled scheduler (statement granularity, preemption bound 1 quick / 2 thorough; a request that started after the removal gets the unregistered-issuer reply, one that finished before it the registered one); oracle = Success only-if conditions, InResponseTo echo, Issuer = published entityID, delivery only to the first registered SingleLogoutService location with unchanged RelayState"
+	run.Rule = "every assignment of 15 logout-request / SP-metadata dimensions with at most k deviations from the conformant default (k<=3 quick, k<=4 thorough), plus every event history of length 2 (quick) / <=3 (thorough) over a 16-request alphabet on ONE provider (each reply judged by the same oracle; sync.Pool is replaced by a deterministic LIFO pool through the overlay); one execution = fresh provider + one real logout request with the clock pinned; the reply is decoded with x/net/html + xt; plus logout ; (service provider unregistered and / or the next service-provider lookup fails with a plain / deadline / cancellation error) ; same logout for every k<=1 shape x 7 modes, plus logout(A) || logout(A) || unregister(A) under the controlled scheduler (statement granularity, preemption bound 1 quick / 2 thorough; a request that started after the removal gets the unregistered-issuer reply, one that finished before it the registered one); oracle = Success only-if conditions, InResponseTo echo, Issuer = published entityID, delivery only to the first registered SingleLogoutService location with unchanged RelayState"
 	run.Assume = []string{"RelayState alphabet here is {token, absent}; metacharacters in RelayState are C17/C18's alphabet", "a plain HTTP error (>=400) is accepted as 'not silence' where no LogoutResponse is produced"}
 	if ctx.Replay != "" {
 		var rp c13Replay
@@ -306,7 +319,9 @@ func runC13(ctx Ctx) int {
 			}
 			return 0
 		}
-		if rp.P != nil && rp.RegChange {
+		if rp.P != nil && rp.RegMode != "" {
+			v = c13RegChangeMode(*rp.P, rp.RegMode)
+		} else if rp.P != nil && rp.RegChange {
 			v = c13RegChange(*rp.P)
 		} else if rp.P != nil {
 			v = c13Judge(*rp.P)
@@ -391,14 +406,15 @@ func runC13(ctx Ctx) int {
 		}
 		return true
 	})
-	_, complete3 := parallel(len(rc), deadline, func(i int) {
-		v := c13RegChange(rc[i].p)
+	_, complete3 := parallel(len(rc)*len(c13RegModes), deadline, func(i int) {
+		it, mode := rc[i/len(c13RegModes)], c13RegModes[i%len(c13RegModes)]
+		v := c13RegChangeMode(it.p, mode)
 		run.Evaluations.Add(1)
 		run.Transitions.Add(2)
-		run.Outcome("after-unregistration:" + v.Class)
+		run.Outcome("after-" + mode + ":" + v.Class)
 		for _, c := range v.Clauses {
-			p := rc[i].p
-			run.Violate("after-unregistration:"+c, "logout", append([]string{"logout ; service provider unregistered ; same logout"}, rc[i].labels...), v.Detail, c13Replay{P: &p, RegChange: true})
+			p := it.p
+			run.Violate("after-registration-change:"+c, "logout", append([]string{"logout ; " + mode + " ; same logout"}, it.labels...), v.Detail, c13Replay{P: &p, RegMode: mode})
 		}
 	})
 	complete = complete && complete3
